@@ -23,12 +23,16 @@ def no_budget_share(ck, tier):
     c = search.gen_case(ck.seed * 13 + 100000 + k, tier)
     c['want_share'] = c['want_budget'] = False
     out.append(c)
+  # 8 geos, geo_ratio_tolerance = 2/3, 5:3 / 3:5 groups: ratios on a bound in exact arithmetic only
+  from . import c02
+  out += [c for c in c02.boundary_cases(ck, tier) if c['par'].get('geo_ratio_tolerance') == 2.0 / 3.0]
   return out
 
 
 def run(tier):
   return searchfam.run_family('C13', tier, 'props/C13.v', ['exhaustive', 'greedy'], oracle, 90, 800,
-                              RULE + '; plus cases forced into the scope of the property (no budget / share range)',
+                              RULE + '; plus cases forced into the scope of the property (no budget / share range) and 8-geo cases whose group-size ratio '
+                              'equals a geo-ratio bound in exact arithmetic only',
                               extra_cases=no_budget_share,
                               nontrivial=lambda c, o: isinstance(o.get('geo_index'), list) and len(o['geo_index']) >= 2
                               and not c.get('par_final', {}).get('budget_range') and not c.get('par_final', {}).get('treatment_share_range'), gen_targets=searchfam.GEN_TARGETS_ALL)
